@@ -6,6 +6,7 @@ import (
 	"bytes"
 	"fmt"
 	"sort"
+	"strings"
 	"time"
 
 	"github.com/jamespfennell/gtfs"
@@ -68,7 +69,21 @@ var StaticFiles = map[string]map[string]string{}
 
 func init() {
 	stop := func(s string) *gtfsrt.EntitySelector { return &gtfsrt.EntitySelector{StopId: sp(s)} }
-	Inputs["elev"] = feed(1700000000,
+	// an alert with Mercury data whose selectors carry sort orders of equal priority (whatever is derived from them must
+	// not come out in map order)
+	mercury := func(id string, sortOrders ...string) *gtfsrt.FeedEntity {
+		e := alert(id)
+		for _, so := range sortOrders {
+			so := so
+			sel := &gtfsrt.EntitySelector{RouteId: sp(strings.Split(so, ":")[1])}
+			proto.SetExtension(sel, gtfsrt.E_MercuryEntitySelector, &gtfsrt.MercuryEntitySelector{SortOrder: &so})
+			e.Alert.InformedEntity = append(e.Alert.InformedEntity, sel)
+		}
+		c, u, at := uint64(1700000000), uint64(1700000060), "Delays"
+		proto.SetExtension(e.Alert, gtfsrt.E_MercuryAlert, &gtfsrt.MercuryAlert{CreatedAt: &c, UpdatedAt: &u, AlertType: &at})
+		return e
+	}
+	Inputs["elev"] = feed(1700000000, mercury("lmm:alert:88", "MTASBWY:A:22", "MTASBWY:C:22", "MTASBWY:E:22", "MTASBWY:B:22", "MTASBWY:D:22"),
 		alert("R25N#EL728", stop("x")), alert("A27S#EL123", stop("x")), alert("R25S#EL728", stop("x")),
 		alert("E01N#EL728", stop("x")), alert("L03N#EL9", stop("x")), alert("A27N#EL123", stop("x")), alert("lmm:alert:77", stop("S1")))
 	// a mixed message: the elevator alerts come after a trip update and a vehicle position
@@ -167,7 +182,7 @@ func init() {
 		"stops.txt":          "stop_id,stop_name,parent_station,location_type,stop_lat,stop_lon\nst,Station,,1,40.5,-73.5\n,NoId,,0,40.25,-73.75\np1,P1,st,0,,\np2,P2,st,,40.1,\nx,X,,,,\n,NoId2,st,0,1.5,2.5\n",
 		"calendar.txt":       cal + "wk,1,1,1,1,1,0,0,20240101,20240630\nsa,0,0,0,0,0,1,0,20240101,20240630\nsu,0,0,0,0,0,0,1,20240101,20240630\nho,0,0,0,0,0,0,0,20240101,20240101\n",
 		"calendar_dates.txt": "service_id,date,exception_type\nxx,20240704,1\nwk,20240704,2\nyy,20240705,1\nzz,20231231,1\n",
-		"shapes.txt":         "shape_id,shape_pt_lat,shape_pt_lon,shape_pt_sequence\nsh2,1,1,2\nsh1,1,1,1\nsh3,2,2,1\nsh2,0,0,1\n",
+		"shapes.txt":         "shape_id,shape_pt_lat,shape_pt_lon,shape_pt_sequence\nsh2,1,1,2\nsh1,1,1,1\nsh3,2,2,1\nsh2,0,0,1\n9,1,1,1\n10,1,1,1\n1a,1,1,1\n100,1,1,1\n",
 		"trips.txt":          "route_id,service_id,trip_id,shape_id\nr1,wk,t1,sh1\nr2,sa,t2,sh2\nr3,xx,t3,\n",
 		"stop_times.txt":     "trip_id,stop_id,stop_sequence,arrival_time,departure_time\nt1,p1,2,8:00:00,8:00:30\nt2,x,1,9:00:00,9:00:00\nt1,p2,1,7:50:00,7:51:00\nt3,x,5,25:00:00,25:00:00\n",
 		"transfers.txt":      "from_stop_id,to_stop_id,transfer_type\np1,p2,2\np2,x,0\n",
